@@ -305,7 +305,7 @@ pub fn run(ctx: &mut Ctx) {
     };
     let mut rng = ChaCha8Rng::seed_from_u64(ctx.seed ^ 0xC01);
     let tmp = std::env::temp_dir().join(format!("rpgp-verif-c01-{}.bin", std::process::id()));
-    let n_cfg = ctx.pick(400, 6000);
+    let n_cfg = ctx.pick(400, 20000);
     // corpus: minimised past findings, always run first (seed independent)
     let corpus: Vec<(Cfg, usize, usize)> = vec![
         // D18b: SEIPDv1 + two SKESK v4; the second password alone is rejected because the first
@@ -335,7 +335,7 @@ pub fn run(ctx: &mut Ctx) {
         }
     }
     // many RSA-signed messages: signature values with leading zero octets occur 1 in 256 times
-    let n_rsa = ctx.pick(700, 4000);
+    let n_rsa = ctx.pick(700, 8000);
     for j in 0..n_rsa {
         sweep.push((Cfg { source: Source::Bytes, utf8: false, chunk_log2: 9, compression: None, signers: vec![(4, HashAlgorithm::Sha256)], sign_text: j % 2 == 0,
             enc: Enc::None, passwords: vec![], recipients: vec![], armor: false, checksum: false }, 3 + j % 7, 20_000 + j));
